@@ -2495,3 +2495,16 @@ def _map_into_values(ex, args, f):
     m = deref_all(ex, args[0])
     by_ref = "into_values" not in f
     return ValIter([(Ref(Cell(m.vals[i])) if by_ref else m.vals[i]) for i in _map_order(ex, m)])
+
+
+@intr("Option::as_deref", "Option::<T>::as_deref", "Option::as_deref_mut")
+def _opt_as_deref(ex, args, f):
+    o = deref_all(ex, args[0])
+    if o.variant == "None":
+        return NONE
+    return some(Ref(Cell(o.fields[0])))
+
+
+@intr("GenericArray::as_slice", "GenericArray::<T, N>::as_slice")
+def _ga_as_slice(ex, args, f):
+    return I["Vec::as_slice"](ex, args, f)
